@@ -306,7 +306,7 @@ def hardware_grid(sets, names, repo, workdir):
         f.write(GRID_SHIM + '\n#[cfg(test)]\nmod verif_grid;\n')
     env = dict(os.environ)
     env['CARGO_NET_OFFLINE'] = 'true'
-    env['CARGO_TARGET_DIR'] = os.path.join(repo, 'target')
+    env['CARGO_TARGET_DIR'] = os.environ.get('VERIF_CARGO_TARGET', os.path.join(repo, 'target'))
     t0 = time.time()
     p = subprocess.run(['cargo', 'test', '--offline', '--lib', 'verif_grid::verif_grid', '--', '--exact', '--nocapture'],
                        cwd=crate, env=env, stdout=subprocess.PIPE, stderr=subprocess.STDOUT, text=True, timeout=1500)
@@ -355,7 +355,7 @@ fn verif_replay() {
         f.write(SHIM + '\n#[cfg(test)]\nmod verif_replay;\n')
     env = dict(os.environ)
     env['CARGO_NET_OFFLINE'] = 'true'
-    env['CARGO_TARGET_DIR'] = os.path.join(repo, 'target')
+    env['CARGO_TARGET_DIR'] = os.environ.get('VERIF_CARGO_TARGET', os.path.join(repo, 'target'))
     p = subprocess.run(['cargo', 'test', '--offline', '--lib', 'verif_replay::verif_replay', '--', '--exact', '--nocapture'],
                        cwd=crate, env=env, stdout=subprocess.PIPE, stderr=subprocess.STDOUT, text=True, timeout=1500)
     out = p.stdout
